@@ -577,6 +577,7 @@ def OpOk (E : Env) (P : Nat) : WOp → Prop
   | .mutate _ _ x => x < P
   | .mutateInner _ _ x => x < P
   | .addTrait _ _ t => ¬ copyKind t ∧ ∀ c, GoodCore E P c t
+  | .del _ _ => False        -- a reset re-arms the default: outside the histories of C10_fresh / C10_once
   | _ => True
 
 /-- Boolean version of `OpOk` for histories without `add_trait`. -/
@@ -585,6 +586,7 @@ def opOkB (P : Nat) : WOp → Bool
   | .mutate _ _ x => decide (x < P)
   | .mutateInner _ _ x => decide (x < P)
   | .addTrait _ _ _ => false
+  | .del _ _ => false
   | _ => true
 
 theorem opOk_of_bool {E : Env} {P : Nat} (l : List WOp) (h : l.all (opOkB P) = true) : ∀ op ∈ l, OpOk E P op := by
@@ -635,6 +637,10 @@ theorem step_good {E : Env} {P : Nat} {w : World} (g : Good E P w) (op : WOp) (h
         { o with on := (({ on := o.on } : OSt).regAny k false).on } (fun _ => False) hi rfl rfl
         (fun p hp => Or.inl (Or.inr ⟨o, List.mem_of_getElem? hi, p, hp, rfl⟩))
       exact e.good g hnone
+  | del i n => exact hop.elim
+  | query i =>
+    simp only [World.step]
+    cases w.insts[i]? <;> exact g
   | addTrait i n t =>
     simp only [World.step, World.addTrait]
     cases hi : w.insts[i]? with
